@@ -95,6 +95,47 @@ def roundtrip(r: Run, stream, c, label, spelling=None, full=True, want_print=Tru
     return ok
 
 
+def check_gate_defs(r: Run, circuit, stream):
+    """`CircuitGate.get_qasm_gate_def` against the Lean printer model (`printGateDef`): the
+    block's own definition is the last `gate … { … }` of the text the real method returns
+    (definitions of nested blocks come first)."""
+    from bqskit.ir.gates import CircuitGate
+    ck = r.ck
+    for g in circuit.gate_set:
+        if not isinstance(g, CircuitGate):
+            continue
+        text = g.get_qasm_gate_def()
+        own = 'gate ' + text.split('gate ')[-1]
+        name = own.split()[1]
+        body = []
+        okb = True
+        for op in g._circuit:
+            if isinstance(op.gate, CircuitGate):
+                h = hash(op.gate)
+                sp = f'circuitgate_{-h if h < 0 else h}'
+            else:
+                sp = op.gate.qasm_name
+            if ' ' in sp or '|' in sp:
+                okb = False
+            body.append(' '.join([sp, str(op.num_params)] + [str(q) for q in op.location]))
+            check_gate_defs(r, op.gate._circuit, stream) if isinstance(op.gate, CircuitGate) \
+                else None
+        if not okb:
+            continue
+        ck.count((stream, 'gatedef', own))
+
+        def cb(out, own=own):
+            ck.bump('traces_validated_against_impl')
+            if not (out.startswith('ok ') and unesc(out[3:]) == own):
+                ck.violation(
+                    'C17-correspondence:printer-gatedef',
+                    'CircuitGate.get_qasm_gate_def differs from the Lean printer model '
+                    '(BqVerif.Qasm.printGateDef)',
+                    {'stream': stream, 'impl': own, 'model': out,
+                     'broken': 'correspondence qasm printer'}, found_input=False)
+        r.ask(f'printdef {name} {g.num_params} {g.num_qudits} | ' + ' | '.join(body), cb)
+
+
 def stream_lib(r: Run, ncirc):
     from bqskit.ir.circuit import Circuit
     from bqskit.ir.gates import (BarrierPlaceholder, CircuitGate, MeasurementPlaceholder,
@@ -154,6 +195,8 @@ def stream_lib(r: Run, ncirc):
         n = rng.choice([1, 2, 3, 4, 5, 6, 6, 8, 11])
         c = rand_circuit(n, rng.randint(1, 14), 2)
         roundtrip(r, 'lib-circuit', c, f'random-{i}', 'random-circuit')
+        if i % 3 == 0:
+            check_gate_defs(r, c, 'lib-circuit')
         ck.bump('lib_circuit_qubits', str(n))
 
 
@@ -166,8 +209,28 @@ def _encodable(c):
 
 
 # =============================================================== prog: subset programs
+def name_known_expr_defect(r: Run, prog, iops):
+    """If the implementation's reading of a generated program is exactly what a reader with
+    one of the two known expression defects computes, return that defect's signature."""
+    if prog is None:
+        return None, None
+    for mode, sig, what in (
+            ('stripped', 'C17-expr-parentheses-dropped',
+             'grouping parentheses are dropped before evaluation (here the difference is a '
+             'floating-point one, e.g. x+(1-1) read as x+1-1)'),
+            ('textual', 'C17-expr-negative-actual-under-power',
+             'a negative actual parameter is spliced as text into the body expression')):
+        try:
+            n, _, ops = gen.Ref(r.builtins, mode).run(prog)
+        except (Bad, SyntaxError, NameError):
+            continue
+        if ops_diff(iops, canon(r.ref_expect(n, ops))) is None:
+            return sig, what
+    return None, None
+
+
 def check_program(r: Run, stream, text, ref, use_qiskit, sig=None, what=None,
-                  replay_extra=None):
+                  replay_extra=None, prog=None):
     """bqskit's reading of `text` against the reference reading `ref = (n, ops)` (from the
     generated structure), Qiskit's reading, and the Lean model's."""
     ck = r.ck
@@ -201,6 +264,8 @@ def check_program(r: Run, stream, text, ref, use_qiskit, sig=None, what=None,
         iops_seq = impl_ops(c)
         iops = canon(iops_seq)
         d = 'num_qudits' if c.num_qudits != n_ref else ops_diff(iops, rops)
+        if d and sig is None and d.split()[0] in ('params', 'block:'):
+            sig, what = name_known_expr_defect(r, prog, iops)
         if d:
             found.append(d)
             kind = d.split()[0]
@@ -268,7 +333,7 @@ def stream_prog(r: Run, nprog):
             ck.bump('prog_statements', s[0])
         if made in (3, 40):
             ck.sample({'program': text})
-        check_program(r, 'prog', text, (n, ops), use_qiskit)
+        check_program(r, 'prog', text, (n, ops), use_qiskit, prog=p)
 
 
 def _bad_values(ops):
